@@ -57,6 +57,9 @@ class Node:
         return len(self.path_names())
 
 
+MAX_LEVELS_BELOW_BASE = 19      # CG_MAX_GOTO_DEPTH = 20 entries of the position stack, the base is one of them
+
+
 class Tables:
     """what the generator needs from the translator's model: (parent label, child label) -> alternatives"""
     def __init__(self, model):
@@ -139,12 +142,12 @@ class Tree:
     def navigable(self):
         """nodes the goto table can reach (every ancestor step has an arm)"""
         out = []
-        def go(n):
+        def go(n, lvl):
             for k in n.kids:
                 if n is self.root or (n.label, k.label) in self.tab.arms:
-                    if k.label != "Descriptor_t":
-                        out.append(k); go(k)
-        go(self.root)
+                    if k.label != "Descriptor_t" and lvl <= MAX_LEVELS_BELOW_BASE:
+                        out.append(k); go(k, lvl + 1)
+        go(self.root, 0)
         return out
 
     def index_of(self, n):
@@ -256,6 +259,11 @@ class Gen:
         rng = self.rng
         if n.label in self.tab.ctx.get("cgi_user_data_address", ()) and (n.label, "UserDefinedData_t") in self.tab.arms \
                 and n.depth() < 9:
+            if rng.random() < 0.12:
+                # names that differ from the list terminators "end" / "END" in case or by an extension: ordinary names
+                tn = rng.choice(["End", "eNd", "ENd", "enD", "Endx", "EN", "END_", "endwall", "End1"])
+                if tn not in {k.name for k in n.kids}:
+                    self.at(n, "user %s" % tn, [(n, "UserDefinedData_t", tn, None)])
             for _ in range(rng.choice([0, 0, 1, 2] if depth else [0, 1, 1, 2])):
                 nm = self.name("ud")
                 u, = self.at(n, "user %s" % nm, [(n, "UserDefinedData_t", nm, None)])
@@ -677,6 +685,8 @@ class Gen:
                  "goto_too_deep", "long_name", "long_path_segment", "up_beyond_base", "bad_base", "gopath_bad_base",
                  "golist_depth_20", "gopath_empty", "gorel_missing", "negative_index", "gopath_rel_missing",
                  "wrong_label_right_index"]
+        if getattr(self, "too_deep", None) is not None:
+            kinds += ["node_too_deep"] * 3
         k = rng.choice(kinds)
         self.stats["failures"][k] = self.stats["failures"].get(k, 0) + 1
         unchanged = False
@@ -718,6 +728,16 @@ class Gen:
             self.emit("gopath %s/NoSuchNode" % self.path_of(n.path_names()).rstrip("/"), kind="nav", ok=False, why=k)
         elif k == "gopath_too_deep":
             self.emit("gopath /%s%s" % (base.name, "/." * 21), kind="nav", ok=False, why=k)
+        elif k == "node_too_deep" and getattr(self, "too_deep", None) is not None:
+            d = self.too_deep
+            B2, base2, st2 = self.tree.steps(d)
+            how = rng.choice(["idx", "name", "path", "list"])
+            if how == "path":
+                self.emit("gopath %s" % self.path_of(d.path_names()), kind="nav", ok=False, why=k)
+            elif how == "list":
+                self.emit("golist %d %d %s" % (B2, len(st2), self.mixed_pairs(st2, "idx")), kind="nav", ok=False, why=k)
+            else:
+                self.emit("goto %d %s" % (B2, self.mixed_pairs(st2, how)), kind="nav", ok=False, why=k)
         elif k == "goto_too_deep":
             self.emit("goto %d %s" % (B, " ".join([". 0"] * 19 + ["UserDefinedData_t 1"] * 3)), kind="nav", ok=None, why=k)
         elif k == "long_name":
@@ -775,6 +795,20 @@ class Gen:
             for nm in names:
                 self.tree.add(node, "DataArray_t", nm, None)
             self.stats["kinds"].add("DataArray_t")
+
+    def deep_chain(self):
+        """UserDefinedData_t nested below the first base down to level 20: levels 1..19 are positions, level 20 is a node
+        that exists in the file and in memory but lies beyond the position stack: every spelling must refuse it"""
+        bases = [k for k in self.tree.root.kids if k.label == "CGNSBase_t"]
+        if not bases or ("CGNSBase_t", "UserDefinedData_t") not in self.tab.arms:
+            return
+        n = bases[0]
+        top = int(os.environ.get("C11_CHAIN", "20"))
+        for lvl in range(1, top + 1):
+            nm = "L%02d" % lvl
+            n, = self.at(n, "user %s" % nm, [(n, "UserDefinedData_t", nm, None)])
+            self.too_deep = n if lvl == 20 else None
+        self.stats["deep_chain"] = 1
 
     def delete_sweep(self, limit):
         """for up to `limit` (parent, kind) groups with two or more deletable siblings: delete one that is NOT the last
@@ -838,6 +872,10 @@ def gen_scenario(rng, tab, big, fname):
     g = Gen(rng, tab, big)
     g.emit("open w %s" % fname, kind="create")
     g.build()
+    if os.environ.get("C11_CHAIN"):
+        # a 20-level chain makes the extracted model's evaluation time grow exponentially with the depth (the engine
+        # re-derives every ancestor at every step): kept as an opt-in experiment (C11_CHAIN=<levels>), not part of the tiers
+        g.deep_chain()
     g.emit("@mirror", kind="mirror")
     nav = g.tree.navigable()
     # a marker at every node, through label+index navigation
